@@ -1,5 +1,5 @@
 CONSTANTS
-  SLen = 5
+  SLen = 6
   MLen = 5
 INIT GenInit
 NEXT GenNext
